@@ -48,9 +48,17 @@ type mvSpec struct {
 	seq        int
 	maxDiscard uint64 // highest discard watermark any compaction has run with
 	compacted  bool
+	// below[key]: managed mode, some write of key was committed at a version BELOW a version the
+	// key already had (allowed by the API; finding F27: a tombstone above it can be compacted away)
+	below map[string]bool
+	// belowDrop[key]: a write of key at a version at or below the floor of a DropPrefix that covered
+	// it (DropPrefix leaves dead versions of a dropped key in place; they hide such a write)
+	belowDrop map[string]bool
 }
 
-func newSpec() *mvSpec { return &mvSpec{hist: map[string][]specVer{}, dropFloor: map[string]uint64{}} }
+func newSpec() *mvSpec {
+	return &mvSpec{hist: map[string][]specVer{}, dropFloor: map[string]uint64{}, below: map[string]bool{}, belowDrop: map[string]bool{}}
+}
 
 // judged: reads of key at ts are promised by the history (not in the shadow of a DropPrefix).
 func (s *mvSpec) judged(key []byte, ts uint64) bool {
@@ -64,6 +72,14 @@ func (s *mvSpec) add(key []byte, v specVer) {
 	}
 	s.seq++
 	v.seq = s.seq
+	for _, o := range s.hist[string(key)] {
+		if o.ver > v.ver {
+			s.below[string(key)] = true
+		}
+	}
+	if f, ok := s.dropFloor[string(key)]; ok && v.ver <= f {
+		s.belowDrop[string(key)] = true
+	}
 	s.hist[string(key)] = append(s.hist[string(key)], v)
 }
 
@@ -661,6 +677,10 @@ func (s *mvSess) judgeGet(tx *mvTxn, key []byte, out string, fail func(string, s
 		if s.managed && s.spec.dupVersion(key) && strings.HasPrefix(out, "found ") && s.l0l0Seen {
 			// the same (key, version) was written twice and an L0->L0 compaction has re-sorted L0
 			tag = "F2:l0-resort-duplicate-version"
+		} else if s.managed && s.spec.below[string(key)] && s.spec.compacted && strings.HasPrefix(out, "found ") {
+			tag = "F27:write-below-existing-version"
+		} else if s.managed && s.spec.belowDrop[string(key)] && out == "notfound" {
+			tag = "F27b:write-below-dropped-tombstone"
 		}
 		fail(tag, fmt.Sprintf("Get returned %q, the snapshot at readTs=%d holds %q", out, tx.readTs, want))
 	}
@@ -725,6 +745,9 @@ func (s *mvSess) judgeStable(what string, pre []readSnap, fail func(string, stri
 			if s.managed && s.spec.dupVersion([]byte(r.key)) && s.l0l0Seen && now != "absent" && r.res != "absent" &&
 				strings.SplitN(now, ":", 2)[0] == strings.SplitN(r.res, ":", 2)[0] {
 				tag = "F2:l0-resort-duplicate-version"
+			} else if s.managed && s.spec.below[r.key] && now != "absent" {
+				// a version written below an existing (dead) version of the key became visible
+				tag = "F27:write-below-existing-version"
 			}
 			fail(tag, fmt.Sprintf("%s changed read of key %s at ts=%d: before %q after %q", what, hx([]byte(r.key)), r.ts, r.res, now))
 			return
@@ -737,6 +760,14 @@ func (s *mvSess) judgeStable(what string, pre []readSnap, fail func(string, stri
 		if now != want && !(s.spec.compacted && r.ts < s.spec.maxDiscard) && s.spec.judged([]byte(r.key), r.ts) {
 			if s.managed && s.spec.dupVersion([]byte(r.key)) && s.l0l0Seen {
 				fail("F2:l0-resort-duplicate-version", fmt.Sprintf("after %s key %s at ts=%d reads %q, history says %q", what, hx([]byte(r.key)), r.ts, now, want))
+				return
+			}
+			if s.managed && s.spec.below[r.key] && s.spec.compacted && now != "absent" {
+				fail("F27:write-below-existing-version", fmt.Sprintf("after %s key %s at ts=%d reads %q, history says %q", what, hx([]byte(r.key)), r.ts, now, want))
+				return
+			}
+			if s.managed && s.spec.belowDrop[r.key] && now == "absent" {
+				fail("F27b:write-below-dropped-tombstone", fmt.Sprintf("after %s key %s at ts=%d reads %q, history says %q (a dead version left in place by DropPrefix hides the write)", what, hx([]byte(r.key)), r.ts, now, want))
 				return
 			}
 			fail("C12-read-wrong", fmt.Sprintf("after %s key %s at ts=%d reads %q, history says %q", what, hx([]byte(r.key)), r.ts, now, want))
@@ -1140,13 +1171,47 @@ func (s *mvSess) iterate(tx *mvTxn, kv map[string]string, fail func(string, stri
 	if judged && !opt.AllVersions && !(s.spec.compacted && tx.readTs < s.spec.maxDiscard) {
 		want := s.specScan(tx, opt, seek)
 		if strings.Join(want, ";") != strings.Join(items, ";") {
-			fail("C05-scan", fmt.Sprintf("iterator yielded [%s], the snapshot at readTs=%d holds [%s]", strings.Join(items, ";"), tx.readTs, strings.Join(want, ";")))
+			tag := "C05-scan"
+			if s.managed && s.spec.compacted && s.onlyBelowKeysDiffer(want, items) {
+				tag = "F27:write-below-existing-version"
+			}
+			fail(tag, fmt.Sprintf("iterator yielded [%s], the snapshot at readTs=%d holds [%s]", strings.Join(items, ";"), tx.readTs, strings.Join(want, ";")))
 		}
 	}
 	return out
 }
 
 // specScan: the visible keys of the snapshot (own pending writes layered on top) in order.
+// onlyBelowKeysDiffer: the two item lists differ only in items of keys that were written below an
+// existing version (finding F27), and only by extra items on the implementation's side.
+func (s *mvSess) onlyBelowKeysDiffer(want, got []string) bool {
+	ws := map[string]bool{}
+	for _, w := range want {
+		ws[w] = true
+	}
+	gs := map[string]bool{}
+	any := false
+	for _, g := range got {
+		gs[g] = true
+		if !ws[g] {
+			k := g
+			if i := strings.IndexByte(g, '@'); i >= 0 {
+				k = g[:i]
+			}
+			if !s.spec.below[string(unhx(k))] {
+				return false
+			}
+			any = true
+		}
+	}
+	for _, w := range want {
+		if !gs[w] {
+			return false
+		}
+	}
+	return any
+}
+
 func (s *mvSess) specScan(tx *mvTxn, opt badger.IteratorOptions, seek string) []string {
 	keySet := map[string]bool{}
 	for k := range s.spec.hist {
@@ -1476,7 +1541,17 @@ func genMvccSession(rng *rand.Rand, st *Stats) []string {
 						low = keyMax[k] + 1
 					}
 				}
-				if low < cts && rng.Intn(3) == 0 {
+				below := false
+				if len(txnKeys[id]) > 0 && rng.Intn(30) == 0 {
+					// the API also allows a commit BELOW a version the key already has (finding F27)
+					if km := keyMax[txnKeys[id][0]]; km > disc+1 {
+						c = disc + 1 + uint64(rng.Intn(int(km-disc-1)))
+						below = true
+						st.Inc("managed_commit_below_existing")
+					}
+				}
+				if below {
+				} else if low < cts && rng.Intn(3) == 0 {
 					c = low + uint64(rng.Intn(int(cts-low)))
 				} else {
 					cts++
@@ -1502,6 +1577,19 @@ func genMvccSession(rng *rand.Rand, st *Stats) []string {
 			}
 			if rng.Intn(3) == 0 {
 				sk := genUserKey(rng, 1, 3)
+				switch rng.Intn(4) {
+				case 0:
+					// land exactly on a key this transaction has a pending write for
+					if pk := txnKeys[id]; len(pk) > 0 {
+						sk = []byte(pk[rng.Intn(len(pk))])
+						st.Inc("iter_seek_on_pending_key")
+					}
+				case 1:
+					sk = keys[rng.Intn(len(keys))] // exactly on a key of the pool
+				}
+				if len(sk) == 0 {
+					sk = genUserKey(rng, 1, 3)
+				}
 				if i := strings.Index(o, " prefix="); i >= 0 && rng.Intn(3) != 0 {
 					// with Prefix set, seek inside the prefix (seeks outside it depend on which
 					// tables the prefix-based table picking leaves out; not part of the property)
